@@ -1129,3 +1129,132 @@ def emitted_source(v: V) -> str:
     if isinstance(v, Lit):
         return repr(v.value)
     return chain(v) if isinstance(v, (Param, Attr, Index, LoopVar)) else repr(v)
+
+
+# --------------------------------------------------------------------------- rendering an emitted shape as Python text
+_LIST_FIELDS = ("body", "orelse", "finalbody", "decorator_list", "args", "keywords", "elts", "targets", "names", "generators", "ifs", "posonlyargs", "kwonlyargs",
+                "kw_defaults", "defaults", "type_params", "handlers", "items", "bases", "ops", "comparators", "values", "keys")
+
+
+def renders(v: V, **kw_) -> List[str]:
+    """one rendering per alternative of the shape"""
+    out = []
+    for a in alts(v):
+        try:
+            out.append(render(a, **kw_))
+        except ValueError as exc:
+            out.append(f"<unrenderable: {exc}>")
+    return sorted(set(out))
+
+def _hole(v: V) -> str:
+    import re as _re
+    t = chain(v) if isinstance(v, (Param, Attr, Index, LoopVar)) else repr(v)
+    t = _re.sub(r"[^0-9A-Za-z_]+", "_", t).strip("_")
+    return "_H_" + (t[:60] or "x")
+
+
+def _to_ast(v: V, want: str = "expr"):
+    """shape -> ast node (or str / list / constant for non-node fields); holes become names `_H_<origin>`"""
+    if isinstance(v, Lit):
+        return v.value
+    if isinstance(v, Seq):
+        out = []
+        for i in v.items:
+            if isinstance(i, Star):
+                out.append(ast.Starred(value=ast.Name(id=_hole(i.value) if hasattr(i, "value") else "_H_star", ctx=ast.Load()), ctx=ast.Load()))
+            else:
+                out.append(_to_ast(i))
+        return out
+    if isinstance(v, Node):
+        cls = getattr(ast, v.kind, None)
+        if cls is None:
+            return ast.Name(id=_hole(v), ctx=ast.Load())
+        kwargs = {}
+        for f in cls._fields:
+            if f in v.fields:
+                x = _to_ast(v.fields[f], "str" if f in ("id", "attr", "arg", "name", "module") else "expr")
+                if f in ("id", "attr", "arg", "name", "module") and not isinstance(x, (str, type(None))):
+                    x = x.id if isinstance(x, ast.Name) else _hole(v.fields[f])
+                if f == "value" and v.kind == "Constant" and isinstance(x, ast.AST):
+                    return ast.Name(id="_C" + (x.id[2:] if isinstance(x, ast.Name) and x.id.startswith("_H") else "_" + _hole(v.fields[f])[3:]), ctx=ast.Load())
+                if f in _LIST_FIELDS and not isinstance(x, list) and not (f == "args" and v.kind in ("FunctionDef", "AsyncFunctionDef", "Lambda")):
+                    # a sequence that is computed as a whole (comprehension over the schema, a parameter): one starred hole
+                    x = [ast.Starred(value=x if isinstance(x, ast.AST) else ast.Name(id=_hole(v.fields[f]), ctx=ast.Load()), ctx=ast.Load())] if f not in ("body", "orelse", "finalbody") \
+                        else [ast.Expr(value=x if isinstance(x, ast.AST) else ast.Name(id=_hole(v.fields[f]), ctx=ast.Load()))]
+                kwargs[f] = x
+        node = cls(**kwargs)
+        for f in cls._fields:
+            if not hasattr(node, f):
+                default = [] if f in ("body", "orelse", "finalbody", "decorator_list", "args", "keywords", "elts", "targets", "names", "generators", "ifs", "posonlyargs", "kwonlyargs",
+                                      "kw_defaults", "defaults", "type_params", "handlers", "items", "bases", "ops", "comparators", "values", "keys") else None
+                if f == "ctx":
+                    default = ast.Load()
+                if f == "args" and v.kind in ("FunctionDef", "AsyncFunctionDef", "Lambda"):
+                    default = ast.arguments(posonlyargs=[], args=[], vararg=None, kwonlyargs=[], kw_defaults=[], kwarg=None, defaults=[])
+                setattr(node, f, default)
+        return node
+    if isinstance(v, Fmt):
+        # a string built from literal and computed parts
+        parts = []
+        for p in v.parts:
+            parts.append(str(p.value) if isinstance(p, Lit) else "{" + _hole(p)[3:] + "}")
+        return "".join(parts) if want == "str" else ast.Name(id="_H_" + "".join(ch if ch.isalnum() or ch == "_" else "_" for ch in "".join(parts))[:70], ctx=ast.Load())
+    if want == "str":
+        return _hole(v)
+    return ast.Name(id=_hole(v), ctx=ast.Load())
+
+
+def render(v: V, strip_annotations: bool = True, strip_docstrings: bool = True) -> str:
+    """Python text of an emitted function / statement shape.  Annotations and docstrings of the emitted code can be left
+    out (they do not change what the emitted code does).  Raises ValueError when the shape cannot be rendered."""
+    try:
+        node = _to_ast(v)
+        if isinstance(node, list):
+            node = ast.Module(body=[n if isinstance(n, ast.stmt) else ast.Expr(value=n) for n in node], type_ignores=[])
+        if not isinstance(node, ast.AST):
+            return repr(node)
+
+        class Strip(ast.NodeTransformer):
+            def visit_arg(self, n):
+                if strip_annotations:
+                    n.annotation = None
+                return n
+
+            def _fn(self, n):
+                self.generic_visit(n)
+                if strip_annotations:
+                    n.returns = None
+                if strip_docstrings and n.body and isinstance(n.body[0], ast.Expr) and isinstance(n.body[0].value, ast.Name) and n.body[0].value.id.startswith("_C"):
+                    n.body = n.body[1:] or [ast.Pass()]
+                elif strip_docstrings and n.body and isinstance(n.body[0], ast.Expr) and (
+                        (isinstance(n.body[0].value, ast.Constant) and isinstance(n.body[0].value.value, str)) or
+                        (isinstance(n.body[0].value, ast.Constant) and isinstance(n.body[0].value.value, ast.AST)) or
+                        (isinstance(n.body[0].value, ast.Constant))):
+                    n.body = n.body[1:] or [ast.Pass()]
+                return n
+            visit_FunctionDef = visit_AsyncFunctionDef = _fn
+
+            def visit_AnnAssign(self, n):
+                self.generic_visit(n)
+                if strip_annotations and n.value is not None and isinstance(n.target, ast.Name):
+                    return ast.Assign(targets=[n.target], value=n.value)
+                return n
+        node = Strip().visit(node)
+        # arguments written as "*name" by the generator are varargs of the emitted function
+        for n in ast.walk(node):
+            if isinstance(n, ast.arguments):
+                keep = []
+                for a in n.args:
+                    if isinstance(a.arg, str) and a.arg.startswith("**"):
+                        n.kwarg = ast.arg(arg=a.arg[2:], annotation=None)
+                    elif isinstance(a.arg, str) and a.arg.startswith("*"):
+                        n.vararg = ast.arg(arg=a.arg[1:], annotation=None)
+                    else:
+                        keep.append(a)
+                n.args = keep
+            if isinstance(n, ast.Name) and isinstance(n.id, str) and n.id.startswith("*"):
+                n.id = n.id  # rendered as it is (a starred name in a call)
+        ast.fix_missing_locations(node)
+        return ast.unparse(node)
+    except Exception as exc:  # pragma: no cover
+        raise ValueError(f"shape cannot be rendered: {exc}") from exc
